@@ -89,3 +89,9 @@ pub fn required_classes(id: &str) -> Vec<String> {
     }
     v
 }
+
+/// Properties with scale oracles that also run in one extra shard built without optimisation
+/// (profile `unopt`), where recursion is not turned into loops and frames are large.
+pub fn has_unopt_shard(id: &str) -> bool {
+    matches!(id, "C05" | "C07" | "C16")
+}
